@@ -67,7 +67,19 @@ class Pass2:
 
     def _decision(self):
         """if randoms[i] <= M: Nout[tid, r, 0] += 1; keep[i] = c  elif ... else keep[i] = 0"""
-        chain = [s for s in self.ci.body if isinstance(s, ast.If) and isinstance(s.test, ast.Compare) and 'randoms' in unparse(s.test.left)]
+        def split(t):
+            """test -> (decision compare, guard flag or None, other guard compares):
+               randoms[i] <= M   |   want_T and randoms[i] <= M   |   want_T and M > M_prev and randoms[i] <= M"""
+            if isinstance(t, ast.Compare):
+                return t, None, []
+            if isinstance(t, ast.BoolOp) and isinstance(t.op, ast.And):
+                dec = [v for v in t.values if isinstance(v, ast.Compare) and 'randoms' in unparse(v.left)]
+                flags = [v for v in t.values if isinstance(v, ast.Name)]
+                others = [v for v in t.values if isinstance(v, ast.Compare) and 'randoms' not in unparse(v.left)]
+                if len(dec) == 1 and len(flags) <= 1 and len(dec) + len(flags) + len(others) == len(t.values):
+                    return dec[0], (flags[0].id if flags else None), others
+            return None, None, []
+        chain = [s for s in self.ci.body if isinstance(s, ast.If) and split(s.test)[0] is not None and 'randoms' in unparse(split(s.test)[0].left)]
         if len(chain) != 1:
             raise AnalysisError(f'{self.name}: decision chain not found')
         self.branches = []     # dict(marker, op, lhs, row, code, node)
@@ -75,8 +87,10 @@ class Pass2:
         self.decision = c
         self.else_code = None
         while True:
-            t = c.test
-            b = dict(marker=unparse(t.comparators[0]), op=type(t.ops[0]).__name__, lhs=unparse(t.left), rows=[], codes=[], node=c)
+            t, guard, extra = split(c.test)
+            if t is None:
+                raise AnalysisError(f'{self.name}: decision branch test not understood: {unparse(c.test)[:60]}')
+            b = dict(marker=unparse(t.comparators[0]), op=type(t.ops[0]).__name__, lhs=unparse(t.left), rows=[], codes=[], node=c, guard=guard, extra=[unparse(x).replace(' ', '') for x in extra])
             for s in c.body:
                 if isinstance(s, ast.AugAssign) and isinstance(s.target, ast.Subscript) and unparse(s.target.value) == 'Nout':
                     b['rows'].append((idx(s.target), unparse(s.value), type(s.op).__name__))
